@@ -353,7 +353,8 @@ pub fn write_evidence(cfg: &RunCfg, stats: &Stats, info: &EvidenceInfo, wall_s: 
         "evaluations": stats.evaluations,
         "distinct_nontrivial": stats.nontrivial.len(),
         "rule": info.rule,
-        "samples": stats.samples,
+        // a run that ends in its first case (a violation found at once) has collected no sample yet
+        "samples": if stats.samples.is_empty() { vec![json!({"note": "the run ended before a sample of a passing case was recorded; the failing case is in the replay file"})] } else { stats.samples.clone() },
         "classes": stats.counters,
         "exhaustive": info.exhaustive,
         "shards": SHARDS,
